@@ -220,6 +220,10 @@ package dhcp
 //@   ensures acctStops == 0
 //@   ensures s.acksTotal == old(s.acksTotal) + 1 && isNewSession && old(s.radiusClient) != nil ==> acctStarts == 1
 //@   ensures acctStarts <= 1 && (!isNewSession || old(s.radiusClient) == nil ==> acctStarts == 0)
+// stated over the lease that was found (by MAC or, for relayed requests, by circuit-id), not over
+// the code's own new-session flag: continuing a binding never starts accounting again
+//@   ensures existingLease != nil ==> acctStarts == 0
+//@   ensures s.acksTotal == old(s.acksTotal) + 1 && existingLease == nil && old(s.radiusClient) != nil ==> acctStarts == 1
 //@   ghost relPool mathint = 0
 //@   ghost markedUnavailable mathint = 0
 //@   ghost relSessions mathint = 0
